@@ -4,6 +4,7 @@ import itertools
 from .. import drive, forms, opsem, ref, scopes
 from ..runner import Check, Result
 
+SOLVER_TIMEOUT_MS = 60000
 CHECK_LIMIT = 400   # Optimize.check() calls after which an enumeration is declared non-terminating
 
 
@@ -25,7 +26,13 @@ class counted_checks:
             self.n += 1
             if self.n > CHECK_LIMIT:
                 raise NonTermination("more than %d Optimize.check() calls" % CHECK_LIMIT)
-            return self.real(opt, *a)
+            # a single check() that never returns (e.g. an objective that is unbounded below) must not hang the explorer:
+            # the scopes here take milliseconds, so a 60 s solver timeout cannot cut a legitimate run short
+            opt.set("timeout", SOLVER_TIMEOUT_MS)
+            r = self.real(opt, *a)
+            if r == self.z3.unknown:
+                raise NonTermination("Optimize.check() gave up after %d ms (objective unbounded / no progress)" % SOLVER_TIMEOUT_MS)
+            return r
         z3.Optimize.check = check
         return self
 
@@ -64,6 +71,9 @@ def check_object(res, prop, sig, conds, queries, via):
             obj = PreOCF.init_random_min_c_rep(bb)
         impacts = list(obj.save_impacts())
         ranks = dict(obj.compute_all_ranks())
+    except NonTermination as e:
+        res.violation(prop, "construct-nontermination", case, "a ranking object", str(e))
+        return None
     except BaseException as e:  # noqa: BLE001
         if isinstance(e, (KeyboardInterrupt, SystemExit, MemoryError)):
             raise
